@@ -87,3 +87,4 @@ try:
     _fill_engine_sets()
 except Exception:
     pass
+_p("C11", assumptions=COMMON_VERUS_ASSUMPTIONS, not_covered=[])
